@@ -18,10 +18,12 @@ CRATES="$CRATE"; grep -q "scylla-cql-core/" "$SEED/patch.diff" && CRATES="$CRATE
 CRATES=$(echo $CRATES | tr ' ' '\n' | sort -u | tr '\n' ' ')
 BASE=/var/tmp/seedverify-baseline-$(echo $CRATES | tr ' ' '_').txt
 [ -f "$BASE" ] || run_suite $CRATES > "$BASE"
+# FILTER "test:<name>" selects an integration-test target instead of a --lib test filter
+if [ "${FILTER#test:}" != "$FILTER" ]; then DEMO_ARGS=(--test "${FILTER#test:}"); else DEMO_ARGS=(--lib "$FILTER"); fi
 git apply "$SEED/demo.diff" || { echo "VERIFY-ERROR: demo.diff does not apply"; exit 2; }
-cargo test -p "$CRATE" --lib --offline "$FILTER" > /var/tmp/seedverify-demo-without.log 2>&1; RC_WITHOUT=$?
+cargo test -p "$CRATE" --offline "${DEMO_ARGS[@]}" > /var/tmp/seedverify-demo-without.log 2>&1; RC_WITHOUT=$?
 git apply "$SEED/patch.diff" || { echo "VERIFY-ERROR: patch.diff does not apply"; exit 2; }
-cargo test -p "$CRATE" --lib --offline "$FILTER" > /var/tmp/seedverify-demo-with.log 2>&1; RC_WITH=$?
+cargo test -p "$CRATE" --offline "${DEMO_ARGS[@]}" > /var/tmp/seedverify-demo-with.log 2>&1; RC_WITH=$?
 git checkout -q -- . ; git clean -fdq -e Cargo.lock ; git apply "$SEED/patch.diff"
 run_suite $CRATES > /var/tmp/seedverify-suite-with.txt
 SUITE_SAME=no; diff -q "$BASE" /var/tmp/seedverify-suite-with.txt > /dev/null && SUITE_SAME=yes
